@@ -114,6 +114,35 @@ def check_frees(idx: Index, rep: Report) -> None:
     n = 0
     for f in impls:
         cfg = CFG(f.node)
+        # collections whose members are put in ONE register together with an operand of the operation
+        # (`allocate_values_same_reg((block_arg, operand, yield_operand, op_result))` over zip(args, self.iter_args, ...)):
+        # the register holds the operand, which is live above the operation, so no member may be freed here
+        shared_with_operand: set[str] = set()
+        for g_ in calls_in(f.node):
+            if call_attr(g_) == "allocate_values_same_reg" and g_.args and isinstance(g_.args[0], (ast.Tuple, ast.List)):
+                srcs = []
+                for e_ in g_.args[0].elts:
+                    src_ = unparse(e_)
+                    if isinstance(e_, ast.Name):
+                        for w_ in walk_local(f.node):
+                            if isinstance(w_, ast.For) and any(x is g_ for x in ast.walk(w_)) and isinstance(w_.iter, ast.Call) and unparse(w_.iter.func) == "zip" and isinstance(w_.target, ast.Tuple):
+                                for t_, it_ in zip(w_.target.elts, w_.iter.args):
+                                    if unparse(t_) == e_.id:
+                                        src_ = resolved_text(cfg, it_, cfg.node_of(w_))
+                    srcs.append(src_)
+                if any(re.search(r"self\.(iter_args|operands|ins)\b|operand", s_) and "yield" not in s_ for s_ in srcs):
+                    shared_with_operand |= set(srcs)
+        for c in calls_in(f.node):
+            if call_attr(c) == "free_value" and c.args and shared_with_operand:
+                a0 = c.args[0]
+                src_ = unparse(a0)
+                if isinstance(a0, ast.Name):
+                    for w_ in walk_local(f.node):
+                        if isinstance(w_, ast.For) and any(x is c for x in ast.walk(w_)) and unparse(w_.target) == a0.id:
+                            src_ = resolved_text(cfg, w_.iter, cfg.node_of(w_))
+                src_ = re.sub(r"^(?:reversed|tuple|list)\((.*)\)$", r"\1", src_)
+                if src_ in shared_with_operand:
+                    r.fail(f"{f.fq}:free-shared({src_})", Finding("C19.R1", f.fq, f"free-of-shared-register:{src_}", f"`{unparse(c)}` frees a member of `{src_}`, which allocate_values_same_reg put in the same register as an operand of this operation: the register is handed out again while the operand (e.g. the initial value of a loop-carried variable) is still live above", f"{f.module.relpath}:{c.lineno}"))
         # names bound by `ins, outs, inouts = self.get_register_constraints()`
         for c in calls_in(f.node):
             if call_attr(c) == "free_value" and c.args:
